@@ -36,6 +36,16 @@ class Lane(LaneBase):
                 yield tsgen.gen_consistent(rng)
             else:
                 yield tsgen.gen_inconsistent(rng)
+        # lags of four and more digits (one template reaching far back, one floating node far away)
+        for _ in range(6 if tier == 'quick' else 30):
+            a, b = rng.sample(['X', 'Y', 'Z', 'my var'], 2)
+            big = rng.choice([1000, 1001, 1234])
+            ops = [['add_edge', tsgen.fmt(a, -big), tsgen.fmt(b, 0), '->', {'m': 1}, True],
+                   ['add_edge', tsgen.fmt(a, -1), tsgen.fmt(a, 0), '->', {}, True]]
+            if rng.random() < 0.5:
+                ops.append(['add_node', tsgen.fmt('F', -rng.choice([1000, 1100])), 'binary', {'k': 1}])
+            rng.shuffle(ops)
+            yield {'kind': 'big-lag', 'gmeta': None, 'ops': ops}
 
     def run_case(self, case):
         g, rejected = tsgen.build(case)
